@@ -693,6 +693,8 @@ class Printer:
         pk = {p[0] for p, _ in arms}
         last = arms[-1][0][0] if arms else ""
         if "pguard" in pk:
+            if pk == {"pguard"}:
+                return "-all-arms-guarded"          # partial whatever the argument: a class of its own
             return "-guard" + ("" if last in ("pwild", "pvar") else "-no-default")
         if "plit" in pk:
             return "-literal" + ("" if pk & {"pwild", "pvar"} else "-no-default")
@@ -2125,6 +2127,8 @@ def text_label(src, s, e):
     pats = [a.split("=>")[0].strip() for a in arms if "=>" in a]
     default = bool(pats) and bool(re.match(r"^(_|[a-z][A-Za-z0-9_]*)$", pats[-1]))
     if any(re.search(r"\sif\s", p) for p in pats):
+        if all(re.search(r"\sif\s", p) for p in pats):
+            return "match-all-arms-guarded"
         return "match-guard" + ("" if default else "-no-default")
     if any(re.search(r"(^|\s)(-?\d|\"|true$|false$)", p) for p in pats):
         return "match-literal" + ("" if default else "-no-default")
@@ -2141,7 +2145,7 @@ def node_at(prog, s, e):
     return best[1] if best else "?"
 
 
-VALUE_DEPENDENT_MATCH = {"match-literal-no-default", "match-guard-no-default"}
+VALUE_DEPENDENT_MATCH = {"match-literal-no-default"}      # (a guarded arm that the typechecker counts as covering its enum case is a finding)
 
 
 def classify(prog, line):
